@@ -222,6 +222,17 @@ def parse_type(s):
                 ws()
             eat("}")
             return {"k": "rec", "ks": ks, "xs": xs, "tup": 0}
+        if peek("union["):
+            eat("union[")
+            xs = []
+            ws()
+            while not peek("]"):
+                xs.append(parse())
+                ws()
+                if peek(","):
+                    eat(",")
+            eat("]")
+            return {"k": "union", "xs": xs}
         m = re.match(r"(unknown|bool|u?int(8|16|32|64)|float(32|64))", s[pos[0]:])
         if m:
             pos[0] += m.end()
@@ -245,7 +256,7 @@ def _rand_leaf(rng, n):
     return {"c": "Numpy", "dt": dt, "d": d}
 
 
-def _rand_layout(rng, depth, allow_record=True):
+def _rand_layout(rng, depth, allow_record=True, allow_union=False):
     """a random VALID layout (returned with its length), larger and deeper than the model checker's bound: every list class
     and index width, offsets that do not start at zero, gaps / overlaps / out-of-order lists, all five option encodings,
     IndexedArray indirection, multidimensional NumPy leaves, records"""
@@ -257,7 +268,8 @@ def _rand_layout(rng, depth, allow_record=True):
         length = n // 2
     isopt = False
     for _ in range(depth):
-        kind = rng.choice(["off", "off", "list", "opt", "reg", "idx", "bytemask", "bitmask", "unmasked", "rec"])
+        kind = rng.choice(["off", "off", "list", "opt", "reg", "idx", "bytemask", "bitmask", "unmasked", "rec"]
+                          + (["union"] if allow_union else []))
         if kind == "off":
             k = rng.randint(0, 5)
             lo = rng.randint(0, min(2, length))
@@ -300,6 +312,17 @@ def _rand_layout(rng, depth, allow_record=True):
             size = rng.choice([1, 2, 3])
             L = {"c": "Regular", "size": size, "zl": 0, "x": L}
             length, isopt = length // size, False
+        elif kind == "union" and L.get("c") != "Union" and rng.random() < 0.6:
+            # a UnionArray whose tags/index cover its two contents partially, repeatedly and out of order
+            other, olen = _rand_layout(rng, rng.randint(0, 2), allow_record=False)
+            if other.get("c") == "Union":
+                continue
+            lens = [length, olen]
+            avail = [t for t in (0, 1) if lens[t] > 0]
+            k = rng.randint(0, 6) if avail else 0
+            tags = [rng.choice(avail) for _ in range(k)]
+            L = {"c": "Union", "w": rng.choice(["64", "32", "U32"]), "t": tags, "i": [rng.randrange(lens[t]) for t in tags], "xs": [L, other]}
+            length, isopt = k, False
         elif kind == "rec" and allow_record and rng.random() < 0.5:
             other, olen = _rand_layout(rng, rng.randint(0, 1), allow_record=False)
             k = min(length, olen)
